@@ -257,7 +257,7 @@ pub fn miri_lib_slice(ctx: &Ctx, rep: &mut Report) {
         let _ = std::fs::copy(ctx.repo.join("Cargo.lock"), dir.join("Cargo.lock"));
     }
     let mut main = String::from(
-        "use std::collections::{BTreeMap, HashMap};\nuse typeshare_core::{context::*, language::*, parser::*, reconcile::reconcile_aliases};\n\nfn one(src: &str, which: usize) -> &'static str {\n    let pc = ParseContext::default();\n    let r = std::panic::catch_unwind(|| {\n        let pfc = ParseFileContext { source_code: src.to_string(), crate_name: SINGLE_FILE_CRATE_NAME, file_name: \"o\".into(), file_path: \"src/lib.rs\".into() };\n        let Ok(Some(pd)) = parse(&pc, pfc) else { return };\n        let mut m = BTreeMap::new();\n        m.insert(SINGLE_FILE_CRATE_NAME, pd);\n        reconcile_aliases(&mut m);\n        let pd = m.remove(&SINGLE_FILE_CRATE_NAME).unwrap();\n        if !pd.errors.is_empty() { return; }\n        let mut out = Vec::new();\n        let mut lang: Box<dyn Language> = match which % 6 {\n            0 => Box::new(TypeScript::default()),\n            1 => Box::new(Swift::default()),\n            2 => Box::new(Kotlin { package: \"a.b\".into(), ..Default::default() }),\n            3 => Box::new(Scala { package: \"a.b\".into(), ..Default::default() }),\n            4 => Box::new(Go { package: \"g\".into(), ..Default::default() }),\n            _ => Box::new(Python::default()),\n        };\n        let _ = lang.generate_types(&mut out, &HashMap::new(), pd);\n    });\n    if r.is_ok() { \"ok\" } else { \"panic\" }\n}\n\nfn main() {\n    std::panic::set_hook(Box::new(|_| {}));\n    let args: Vec<String> = std::env::args().collect();\n    let shard: usize = args[1].parse().unwrap();\n    let shards: usize = args[2].parse().unwrap();\n    let mut n = 0;\n    for (i, (name, src)) in CASES.iter().enumerate() {\n        if i % shards != shard { continue; }\n        let r = one(src, i);\n        println!(\"CASE {name} {r}\");\n        n += 1;\n    }\n    println!(\"DONE {n}\");\n}\n\nconst CASES: &[(&str, &str)] = &[\n",
+        "use std::collections::{BTreeMap, HashMap};\nuse typeshare_core::{context::*, language::*, parser::*, reconcile::reconcile_aliases};\n\nfn one(src: &str, which: usize) -> &'static str {\n    let pc = ParseContext::default();\n    let r = std::panic::catch_unwind(|| {\n        let pfc = ParseFileContext { source_code: src.to_string(), crate_name: SINGLE_FILE_CRATE_NAME, file_name: \"o\".into(), file_path: \"src/lib.rs\".into() };\n        let Ok(Some(pd)) = parse(&pc, pfc) else { return };\n        let mut m = BTreeMap::new();\n        m.insert(SINGLE_FILE_CRATE_NAME, pd);\n        reconcile_aliases(&mut m);\n        let pd = m.remove(&SINGLE_FILE_CRATE_NAME).unwrap();\n        if !pd.errors.is_empty() { return; }\n        let mut out = Vec::new();\n        let mut lang: Box<dyn Language> = match which % 6 {\n            0 => Box::new(TypeScript::default()),\n            1 => Box::new(Swift::default()),\n            2 => Box::new(Kotlin { package: \"a.b\".into(), ..Default::default() }),\n            3 => Box::new(Scala { package: \"a.b\".into(), ..Default::default() }),\n            4 => Box::new(Go { package: \"g\".into(), ..Default::default() }),\n            _ => Box::new(Python::default()),\n        };\n        let _ = lang.generate_types(&mut out, &HashMap::new(), pd);\n    });\n    if r.is_ok() { \"ok\" } else { \"panic\" }\n}\n\nfn main() {\n    std::panic::set_hook(Box::new(|_| {}));\n    let args: Vec<String> = std::env::args().collect();\n    let shard: usize = args[1].parse().unwrap();\n    let shards: usize = args[2].parse().unwrap();\n    let mut n = 0;\n    for (i, (name, src)) in CASES.iter().enumerate() {\n        if i % shards != shard { continue; }\n        for lang in 0..6 {\n            let r = one(src, lang);\n            println!(\"CASE {name} {lang} {r}\");\n            n += 1;\n        }\n    }\n    println!(\"DONE {n}\");\n}\n\nconst CASES: &[(&str, &str)] = &[\n",
     );
     for (name, src) in &cases {
         main.push_str(&format!("    ({:?}, {:?}),\n", name, src));
